@@ -66,12 +66,61 @@ class Replay(object):
         return {}
 
 
+def judge(rp, names, act, to, obs, frm_pins, pins):
+    """Compare what the real stacks did with one successor state of the specification: [(kind, text)]."""
+    problems = []
+    for h in names:
+        for c in names:
+            if h == c:
+                continue
+            want = to["pin"][h][c]
+            rows = pins[h][c]
+            got = 0 if not rows else rp.gen_of(c, rows[0])
+            before = frm_pins[h][c]
+            if len(rows) > 1:
+                problems.append(("pin:several-rows", "%s holds %d identity rows for %s" % (h, len(rows), c)))
+            if got == want:
+                continue
+            auto = to["auto"][h]
+            reinstalled = act["name"] == "Reinstall" and act["c"] == h
+            if before and rows and before[0] != rows[0] and not auto and not reinstalled:
+                kind = "pin:replaced-silently"
+            elif before and not rows and not reinstalled:
+                kind = "pin:lost:%s" % act["name"]
+            elif not before and rows and want == 0:
+                kind = "drift:pin-early"
+            elif want != 0 and got in (0, -1) or (auto and got != want):
+                kind = "pin:not-updated%s" % (":autotrust" if auto and before else "")
+            else:
+                kind = "drift:pin"
+            problems.append((kind, "after %s, %s remembers generation %s of %s's identity, the specification says %s (automatic trust %s)" % (
+                act, h, got, c, want, auto)))
+    if act["name"] == "Send":
+        want = to["last"]["delivered"]
+        if obs["shown_elsewhere"] or obs["times"] > 1:
+            problems.append(("delivered:wrong", "message shown %d times, elsewhere: %s" % (obs["times"], obs["shown_elsewhere"])))
+        if obs["delivered"] and not want:
+            problems.append(("delivered:despite-changed-identity", "after %s the message reached %s's application although one side holds a different "
+                             "identity for the other and automatic trust is off there" % (act, act["c"])))
+        elif want and not obs["delivered"]:
+            both = to["auto"][act["h"]] and to["auto"][act["c"]]
+            problems.append(("delivered:not" + (":autotrust" if both else ""), "after %s the message did not reach %s's application; the specification says it does" % (act, act["c"])))
+    return problems
+
+
 def replay_path(r, g, path, roots, names):
+    """The path fixes the ACTIONS; where the specification allows several outcomes of an action (whether a stale first message gets as far
+    as having its sender's identity remembered depends on key ids coinciding), the successor that matches what the code did is followed."""
     init, steps = g.path_steps(path)
     rp = Replay(roots, names, init["auto"])
     trail = []
+    cur = g.edges[path[0]][0]
     try:
-        for act, to in steps:
+        for act, _ in steps:
+            key = json.dumps(act, sort_keys=True)
+            cands = [g.edges[ei][2] for ei in g.out.get(cur, []) if json.dumps(g.edges[ei][1], sort_keys=True) == key]
+            if not cands:
+                return          # after an earlier outcome other than the planned one this action is not enabled any more
             frm_pins = rp.pins()
             trail.append(act)
             try:
@@ -85,50 +134,18 @@ def replay_path(r, g, path, roots, names):
                 r.violation("exception:%s:%s" % (act["name"], type(ex).__name__), "%s raised %r after %s" % (act["name"], ex, trail), {"history": trail})
                 return
             pins = rp.pins()
-            problems = []
-            for h in names:
-                for c in names:
-                    if h == c:
-                        continue
-                    want = to["pin"][h][c]
-                    rows = pins[h][c]
-                    got = 0 if not rows else rp.gen_of(c, rows[0])
-                    before = frm_pins[h][c]
-                    if len(rows) > 1:
-                        problems.append(("pin:several-rows", "%s holds %d identity rows for %s" % (h, len(rows), c)))
-                    if got == want:
-                        continue
-                    auto = to["auto"][h]
-                    reinstalled = act["name"] == "Reinstall" and act["c"] == h
-                    if before and rows and before[0] != rows[0] and not auto and not reinstalled:
-                        kind = "pin:replaced-silently"
-                    elif before and not rows and not reinstalled:
-                        kind = "pin:lost:%s" % act["name"]
-                    elif not before and rows and want == 0:
-                        kind = "drift:pin-early"
-                    elif want != 0 and got in (0, -1) or (auto and got != want):
-                        kind = "pin:not-updated%s" % (":autotrust" if auto and before else "")
-                    else:
-                        kind = "drift:pin"
-                    problems.append((kind, "after %s, %s remembers generation %s of %s's identity, the specification says %s (automatic trust %s)" % (
-                        act, h, got, c, want, auto)))
-            if act["name"] == "Send":
-                want = to["last"]["delivered"]
-                if obs["shown_elsewhere"] or obs["times"] > 1:
-                    problems.append(("delivered:wrong", "message shown %d times, elsewhere: %s" % (obs["times"], obs["shown_elsewhere"])))
-                if obs["delivered"] and not want:
-                    problems.append(("delivered:despite-changed-identity", "after %s the message reached %s's application although one side holds a different "
-                                     "identity for the other and automatic trust is off there" % (act, act["c"])))
-                elif want and not obs["delivered"]:
-                    both = to["auto"][act["h"]] and to["auto"][act["c"]]
-                    problems.append(("delivered:not" + (":autotrust" if both else ""), "after %s the message did not reach %s's application; the specification says it does" % (act, act["c"])))
+            judged = [(d, judge(rp, names, act, g.states[d], obs, frm_pins, pins)) for d in cands]
+            ok = [d for d, p in judged if not p]
+            if ok:
+                cur = ok[0]
+                continue
+            problems = min((p for _, p in judged), key=len)
             for kind, what in problems:
                 if kind.startswith("drift:"):
                     r.notes.setdefault("drift", []).append({"what": what, "history": trail[-4:]})
                 else:
                     r.violation(kind, "%s; history %s" % (what, trail), {"history": trail, "auto0": init["auto"]})
-            if problems:
-                return
+            return
     finally:
         rp.w.close()
 
@@ -158,8 +175,8 @@ def run(only=None):
             paths = g.transition_cover(rng)
             if thorough:
                 paths += g.random_walks(300, 14, rng)
-            elif len(paths) > 650:
-                paths = rng.sample(paths, 650)
+            elif len(paths) > 900:
+                paths = rng.sample(paths, 900)
             if only is not None:
                 paths = []
             covered = set()
@@ -171,7 +188,7 @@ def run(only=None):
                 if pi < 2:
                     r.sample({"history": [g.edges[i][1] for i in p]})
             r.notes["spec_transitions_replayed_%d" % len(names)] = len(covered)
-        if len(r.notes.get("drift", [])) > 5:
+        if len(r.notes.get("drift", [])) > 5 and not r.violations:
             raise core.MachineryError("Identity.tla does not describe the exchange: %s" % r.notes["drift"][:3])
     finally:
         roots.close()
